@@ -12,4 +12,4 @@ for o in rep.obligations:
     if o.status != 'discharged':
         print(o.status, o.rule, o.where, o.loc, '|', o.desc, '|', o.detail)
 print('errors', rep.errors)
-print('refuted', len(rep.refuted()), 'undecided', len(rep.undecided()))
+print('refuted', len(rep.new_refuted()), 'undecided', len(rep.undecided()))
